@@ -33,47 +33,53 @@ def rule_depth(G, R):
     rule = "R13-depth"
     pe = G.parser_edges()
     R.floor(rule, "call edges passing a FilterParser", len(pe), 30)
-    seen_constructs = set()
+    # (1) once the counter has been increased, the un-incremented parser is dead: everything lexed after a successful
+    #     with_increased_nesting() in the same function (or captured by a closure created there) gets the new parser
+    regions = G.inc_regions()
+    R.floor(rule, "with_increased_nesting call sites", len(regions), 5)
+    spenders = set()
+    for i, where, pre, passed in regions:
+        fn = G.name[i]
+        post = tuple(sorted(min(x + 1, 6) for x in pre))
+        used = False
+        for callee, vals, w in passed:
+            label = "%s: after the increment passes delta %s to %s" % (fn.split("::")[-1], list(vals), callee)
+            if vals == post:
+                used = True
+                R.ok(rule, fn, label, where=w)
+            else:
+                R.violation(rule, fn, "after the increment the outer parser is still passed to %s" % callee,
+                            "a parser with nesting delta %s (expected %s) is handed on after with_increased_nesting(): whatever is "
+                            "lexed through it does not count towards the limit (or counts twice)" % (list(vals), list(post)), w)
+        R.check(used, rule, fn, "the incremented parser is the one used to lex the construct's content",
+                "with_increased_nesting() result is not passed to any lexing call", where)
+        if used:
+            spenders.add(fn.split("::{closure")[0])
+    # (2) entries that are only ever a construct's content: every caller must come with +1
+    for target, (construct, _) in CONTENT.items():
+        callers = [(G.name[i], d) for i, to, d, w in pe if G.name[to] == target]
+        R.check(len(callers) >= 1 and all(d == (1,) for _, d in callers), rule, target,
+                "every caller lexes the %s with the counter increased exactly once" % construct, str(callers))
+    # (3) no edge carries more than +1, and +1 edges leave only functions that increment (or their closures)
     for i, to, d, where in pe:
         a, b = G.name[i], G.name[to]
-        is_closure_tgt = G.insts[to]["mir"]["kind"] == "Closure"
-        base_a = a.split("::{closure")[0]
-        label = "%s -> %s" % (a, b)
-        want = None
-        construct = None
-        if b in CONTENT:
-            want, construct = 1, CONTENT[b][0]
-        elif (base_a, b) in CONTENT_FROM and not is_closure_tgt:
-            want, construct = 1, CONTENT_FROM[(base_a, b)]
-        elif is_closure_tgt and b.startswith(base_a + "::{closure"):
-            # a closure of the same function: it may carry the already-incremented parser
-            if set(d) <= {0, 1}:
-                R.ok(rule, a, "closure %s carries delta %s" % (b[len(base_a):], list(d)), where=where, nontrivial=False)
-            else:
-                R.violation(rule, a, label, "nesting delta %s into a closure" % list(d), where)
-            continue
+        base = a.split("::{closure")[0]
+        if max(d) >= 2:
+            R.violation(rule, a, "%s -> %s carries nesting delta %s" % (a, b, list(d)), "one construct spends more than one unit", where)
+        elif max(d) == 1 and base not in spenders:
+            R.violation(rule, a, "%s -> %s carries +1 but %s never increments" % (a, b, base), where=where)
         else:
-            want = 0
-        if construct:
-            seen_constructs.add(construct)
-        if d == (want,):
-            R.ok(rule, a, "%s: delta %d%s" % (label, want, (" (%s)" % construct) if construct else ""), where=where)
-        else:
-            R.violation(rule, a, "%s: expected delta %d" % (label, want),
-                        (("the content of a %s must be lexed with the nesting counter increased exactly once on every path; "
-                          "possible deltas here: %s") % (construct, list(d)))
-                        if construct else "only the four nesting constructs may spend nesting budget; this edge passes a parser "
-                        "whose counter may have been increased %s time(s)" % list(d), where)
-    missing = {"parenthesis", "not", "any/all quantifier", "function-call argument list"} - seen_constructs
-    R.check(not missing, rule, "parser", "all four nesting constructs have a +1 content edge", "not found: %s" % sorted(missing))
-    sites = G.inc_sites()
-    R.floor(rule, "with_increased_nesting call sites", len(sites), 5)
-    R.analysed["with_increased_nesting_sites"] = [G.name[i] for i, _ in sites]
+            R.ok(rule, a, "%s -> %s: delta %s" % (a, b, list(d)), where=where, nontrivial=(max(d) > 0))
+    # (4) the four constructs of the statement are all present: parenthesis and `not` both live in lex_simple_expr
+    simple_sites = [r for r in regions if G.name[r[0]] == SIMPLE]
+    R.check(len(simple_sites) >= 2, rule, SIMPLE, "parenthesis and `not` each increment the counter (two sites in lex_simple_expr)",
+            "%d increment sites found" % len(simple_sites))
+    qsites = [r for r in regions if "lex_quantifier_expr" in G.name[r[0]]]
+    R.check(len(qsites) >= 1, rule, "ast::logical_expr::LogicalExpr::lex_quantifier_expr", "any/all increments the counter", str(len(qsites)))
+    fsites = [r for r in regions if any(c == LWF for c, _, _ in r[3])]
+    R.check(len(fsites) >= 2, rule, LWF, "both entry points of a function-call argument list increment the counter", str(len(fsites)))
+    R.analysed["with_increased_nesting_sites"] = [G.name[r[0]] for r in regions]
     R.analysed["parser_instances"] = len(G.reach)
-    # every entry into lex_with_function must come with +1: callers enumerated
-    callers = [(G.name[i], d) for i, to, d, w in pe if G.name[to] == LWF]
-    R.check(len(callers) >= 2 and all(d == (1,) for _, d in callers), rule, LWF, "every caller passes an incremented parser",
-            str(callers))
 
 
 def rule_cmp(E, R):
